@@ -23,6 +23,7 @@ func propTable() map[string]PropSpec {
 			{Harness: "HarnessC10Step", Reach: []string{"C10.step.end"}},
 			{Harness: "HarnessC10Init", ArgSets: [][]int64{{0}, {1}, {n}}, Reach: []string{"C10.init.end"}},
 			{Harness: "HarnessC10Chunk", ArgSets: [][]int64{{1}, {2}, {n}, {16}, {24}, {40}}, Reach: []string{"C10.chunk.end"}},
+			{Harness: "HarnessC10Sparse", ArgSets: [][]int64{{16, 0}, {16, 8}, {24, 4}, {24, 8}, {40, 16}, {40, 30}, {9, 2}}, Reach: []string{"C10.sparse.end"}},
 			{Harness: "HarnessC10Residue", Reach: []string{"C10.residue.end"}},
 			{Harness: "HarnessC10Full", ArgSets: [][]int64{{0}, {1}}, Reach: []string{"C10.full.end"}},
 		}
@@ -31,7 +32,7 @@ func propTable() map[string]PropSpec {
 	t["C10"] = PropSpec{
 		ID: "C10", Quick: c10(false), Thorough: c10(true),
 		Bounds: map[string]string{
-			"quick":    "all 256 table entries (symbolic index); one update step for all 2^32 states x 2^8 bytes against the bit-serial shift register (the inductive step: the loop body is the only state transformer); initial value / no final XOR; splitting at every point and byte-wise feeding for messages of 8, 16, 24 and 40 symbolic bytes from an arbitrary state (long enough for a block-wise fast path to be entered); residue 0 for every state; whole-message equivalence with the bit-serial reference for all messages of length 0 and 1",
+			"quick":    "all 256 table entries (symbolic index); one update step for all 2^32 states x 2^8 bytes against the bit-serial shift register (the inductive step: the loop body is the only state transformer); initial value / no final XOR; splitting at every point and byte-wise feeding for messages of 8, 16, 24 and 40 symbolic bytes from an arbitrary state (long enough for a block-wise fast path to be entered); messages of 9..40 bytes that are zero except for 4 arbitrary bytes at several offsets, from an arbitrary state (64 symbolic bits: zero runs and words equal to the running state are where block-wise code takes shortcuts); residue 0 for every state; whole-message equivalence with the bit-serial reference for all messages of length 0 and 1",
 			"thorough": "chunking with 32 symbolic bytes",
 		},
 		Outside: "whole-message equivalence for 2 or more symbolic bytes in one query (solver-hard); it follows from table+step+init by induction on the length, which is an argument, not a solver result",
@@ -217,7 +218,8 @@ func propTable() map[string]PropSpec {
 	c09 := func(level int64) []TaskSpec {
 		in := [][]int64{{0, 5}, {0, 8}, {0, 9}, {0, 13}, {0, 24}, {2, 13}, {66, 12}, {66, 17}, {78, 15}, {115, 11}, {112, 8}, {1, 8}}
 		if level > 0 {
-			in = append(in, [][]int64{{0, 6}, {0, 7}, {0, 12}, {0, 16}, {0, 17}, {0, 32}, {0, 64}, {2, 14}, {2, 18}, {70, 12}, {65, 13}, {111, 15}, {78, 27}, {115, 14}}...)
+			// (PMT sections of 18 bytes and TOT sections of 14 bytes were tried: > 15 min each, two nested symbolic loop lengths)
+			in = append(in, [][]int64{{0, 6}, {0, 7}, {0, 12}, {0, 16}, {0, 17}, {0, 32}, {0, 64}, {2, 14}, {70, 12}, {65, 13}, {111, 15}, {78, 27}}...)
 		}
 		enc := [][]int64{{0, 0, 0}, {0, 1, 0}, {0, 4, 0}, {1, 0, 0}, {1, 1, 0}, {1, 3, 0}}
 		var kinds [][]int64
